@@ -524,7 +524,16 @@ class Exec:
             return
         if z3.is_false(cond):
             raise Infeasible()
-        self.pc.append(cond)
+        if getattr(self, 'no_assume', False) or (self.contract is not None and self.contract.options.get('frames')):
+            self.pc.append(cond)
+        else:
+            # stated against the constructor tests this path has already decided (equivalent under the
+            # path condition): `len(e) == 2` for a known tuple e is then a fact about its items
+            for d in self.against_kind_literals(cond.children() if z3.is_and(cond) else [cond]):
+                if z3.is_false(d):
+                    raise Infeasible()
+                if not z3.is_true(d):
+                    self.pc.append(d)
         # a specification predicate that is assumed to hold is also given unfolded once (its definition):
         # the facts it stands for (dynamic types, lengths) then decide the case distinctions downstream
         if not getattr(self, 'no_assume', False):
@@ -539,7 +548,11 @@ class Exec:
                         if z3.is_false(u):
                             raise Infeasible()
                         if not z3.is_true(u):
-                            self.pc.append(u)
+                            for d in self.against_kind_literals(u.children() if z3.is_and(u) else [u]):
+                                if z3.is_false(d):
+                                    raise Infeasible()
+                                if not z3.is_true(d):
+                                    self.pc.append(d)
 
     def feasible(self):
         from . import solve
@@ -1072,7 +1085,77 @@ class Exec:
             return 'tuple', v.arg(0)
         if k == 'VList':
             return 'list', v.arg(0)
+        k = self.known_kind(v)
+        if k == 'VStr':
+            return 'str', vl.simp(get_s(v))
+        if k == 'VTuple':
+            return 'tuple', vl.simp(get_items(v))
+        if k == 'VList':
+            return 'list', vl.simp(get_elems(v))
         return None, None
+
+    def against_kind_literals(self, conjs):
+        """the conjuncts with the constructor tests already decided on this path (and by the earlier
+        conjuncts) replaced by their truth value: len(e) == 2 for a known tuple e becomes a fact about
+        its items"""
+        subs = []
+
+        def learn(d):
+            if z3.is_app(d) and d.decl().kind() == z3.Z3_OP_DT_IS:
+                t = d.arg(0)
+                dt = t.sort()
+                for k in range(dt.num_constructors()):
+                    o = dt.recognizer(k)(t)
+                    subs.append((o, z3.BoolVal(o.get_id() == d.get_id())))
+        for c in self.pc:
+            for d in (c.children() if z3.is_and(c) else [c]):
+                learn(d)
+        out = []
+        for c in conjs:
+            c2 = vl.simp(z3.substitute(c, *subs)) if subs else c
+            for d in (c2.children() if z3.is_and(c2) else [c2]):
+                out.append(d)
+                learn(d)
+        return out
+
+    def known_kind(self, v):
+        """constructor of a value: syntactically, or decided by a literal of the path condition
+        (is_list(v) assumed earlier on this path)"""
+        k = static_kind(v)
+        if k is not None:
+            return k
+        units = getattr(self, '_kind_units', None)
+        if units is None or units[0] != len(self.pc):
+            true_ids = set()
+            for c in self.pc:
+                for d in (c.children() if z3.is_and(c) else [c]):
+                    if z3.is_app(d) and d.decl().kind() == z3.Z3_OP_DT_IS:
+                        true_ids.add(d.get_id())
+            units = (len(self.pc), true_ids)
+            self._kind_units = units
+        if not units[1]:
+            return None
+        for name, test in (('VList', is_list), ('VTuple', is_tuple), ('VStr', is_str)):
+            if test(v).get_id() in units[1]:
+                return name
+        return None
+
+    def known_len(self, seq):
+        """length of a sequence term when a literal of the path condition fixes it (len(x) == 2)"""
+        if z3.is_app(seq) and seq.decl().kind() == z3.Z3_OP_SEQ_UNIT:
+            return 1
+        ln = vl.simp(z3.Length(seq))
+        if z3.is_int_value(ln):
+            return ln.as_long()
+        for c in self.pc:
+            for d in (c.children() if z3.is_and(c) else [c]):
+                if z3.is_eq(d):
+                    a, b = d.arg(0), d.arg(1)
+                    if z3.is_int_value(a):
+                        a, b = b, a
+                    if z3.is_int_value(b) and a.get_id() == ln.get_id():
+                        return b.as_long()
+        return None
 
     def is_nonneg(self, t):
         """structurally known to be >= 0: a numeral, a length, a bound index / loop counter, sums of those"""
